@@ -37,6 +37,11 @@ func init() {
 			{ID: "C14-R12", Title: "the module table is rebuilt for new code: an import is resolved by this evaluation's importer (shared with C11-R5)", Floor: 2, Run: c11r5},
 			{ID: "C14-R13", Title: "the import root is fixed (absolute) when the importer is built", Floor: 1, Run: importRootFixedAtConstruction},
 			{ID: "C14-R14", Title: "imports bind the module's own objects", Floor: 2, Run: importsBindTheModulesOwnObjects},
+			{ID: "C14-R15", Title: "names are resolved to slots through the name index", Floor: 1, Run: namesAreResolvedThroughTheNameIndex},
+			{ID: "C14-R16", Title: "import errors reach the script", Floor: 2, Run: importErrorsReachTheScript},
+			{ID: "C14-R17", Title: "modules in progress are not imported again", Floor: 1, Run: modulesInProgressAreNotImportedAgain},
+			{ID: "C14-R18", Title: "import statements always import", Floor: 2, Run: importStatementsAlwaysImport},
+			{ID: "C14-R19", Title: "shared state is enumerated (shared with C09-R18)", Floor: 1, Run: sharedStateIsEnumerated},
 		},
 	})
 }
